@@ -387,4 +387,380 @@ theorem idxOfQubits_getLsbD (qs : List Bool) (k : Nat) (hn : qs.length ≤ 64) :
   · have : ¬ k < qs.length := by omega
     rw [BitVec.getLsbD_of_ge _ k (by omega)]; simp [this]
 
+/-! ### multi-bit writes -/
+
+/-- "OR semantics" of a multi-bit write: the listed bits are cleared, then bit `j` receives the OR of
+the values `val i` over all positions `i` of the list that name `j`; unlisted bits are kept. -/
+def OrSem (w w' : Word) (cbits : List Nat) (val : Nat → Bool) : Prop :=
+  ∀ j, (w'.getLsbD j = true ↔ ((w.getLsbD j = true ∧ j ∉ cbits) ∨ ∃ i, cbits[i]? = some j ∧ val i = true))
+
+theorem measureAllVecWord_orSem (n : Nat) (cbits : List Nat) (qs : List Bool) (w : Word)
+    (hn : qs.length = n) (hn64 : n ≤ 64) (hc : ∀ c ∈ cbits, c < 64) :
+    ∃ w', measureAllVecWord n cbits (idxOfQubits qs) w = some w' ∧
+      OrSem w w' cbits (fun i => qs.getD i false) := by
+  obtain ⟨m, hm, hmb⟩ := orMask_spec cbits hc
+  obtain ⟨rev, hrev, hrb⟩ := reverse_bits_bit (idxOfQubits qs) n hn64
+  obtain ⟨perm, hperm, hpb⟩ := shuffle_bits_bit rev cbits hc
+  refine ⟨(w &&& ~~~m) ||| perm, by simp [measureAllVecWord, hm, hrev, hperm], ?_⟩
+  intro j
+  rw [BitVec.getLsbD_or, Bool.or_eq_true, BitVec.getLsbD_and, Bool.and_eq_true, BitVec.getLsbD_not,
+    Bool.and_eq_true, hpb j]
+  have hrevbit : ∀ i, rev.getLsbD i = (decide (i < n) && qs.getD i false) := by
+    intro i
+    rw [hrb i, idxOfQubits_getLsbD qs _ (by omega)]
+    by_cases hi : i < n
+    · have h1 : n - 1 - i < qs.length := by omega
+      have h2 : qs.length - 1 - (n - 1 - i) = i := by omega
+      simp only [hi, decide_true, Bool.true_and, h1, dite_true]
+      rw [List.getD_eq_getElem?_getD, List.getElem?_eq_getElem (by omega)]
+      simp [h2]
+    · simp [hi]
+  constructor
+  · rintro (⟨hw, hj, hm'⟩ | ⟨i, h1, h2⟩)
+    · left; refine ⟨hw, ?_⟩
+      intro hmem
+      have := (hmb j).mpr hmem
+      simp [this] at hm'
+    · right
+      rw [hrevbit i] at h2
+      simp only [Bool.and_eq_true, decide_eq_true_eq] at h2
+      exact ⟨i, h1, h2.2⟩
+  · rintro (⟨hw, hj⟩ | ⟨i, h1, h2⟩)
+    · left
+      refine ⟨hw, by simpa using BitVec.lt_of_getLsbD hw, ?_⟩
+      cases hmj : m.getLsbD j with
+      | false => rfl
+      | true => exact absurd ((hmb j).mp hmj) hj
+    · right
+      refine ⟨i, h1, ?_⟩
+      rw [hrevbit i]
+      have hi : i < n := by
+        rcases Nat.lt_or_ge i qs.length with h | h
+        · omega
+        · have h2' : qs.getD i false = true := h2
+          rw [List.getD_eq_getElem?_getD, List.getElem?_eq_none h] at h2'; cases h2'
+      have h2' : qs.getD i false = true := h2
+      rw [h2']; simp [hi]
+
+theorem spec_write_getLsbD (w : Word) (c : Nat) (v : Bool) (j : Nat) :
+    (Spec.Bits.write w c v).getLsbD j = (decide (j < 64) && if j = c then v else w.getLsbD j) := by
+  unfold Spec.Bits.write; rw [ofBits_getLsbD]
+
+/-- unlisted bits are kept by the reference multi-bit write -/
+theorem writeAll_frame (outcome : Nat → Bool) : ∀ (cbits : List Nat) (q : Nat) (w : Word) (j : Nat),
+    j ∉ cbits → (Spec.Bits.writeAll outcome cbits q w).getLsbD j = w.getLsbD j := by
+  intro cbits
+  induction cbits with
+  | nil => intro q w j _; rfl
+  | cons c cs ih =>
+    intro q w j hj
+    simp only [List.mem_cons, not_or] at hj
+    rw [Spec.Bits.writeAll, ih _ _ _ hj.2, spec_write_getLsbD]
+    simp only [hj.1, if_false]
+    by_cases h : j < 64
+    · simp [h]
+    · simp [h, BitVec.getLsbD_of_ge w j (by omega)]
+
+/-- later write wins: the bit named at position `i`, and at no later position, holds `outcome (q+i)` -/
+theorem writeAll_last (outcome : Nat → Bool) : ∀ (cbits : List Nat) (q : Nat) (w : Word) (i j : Nat),
+    j < 64 → cbits[i]? = some j → (∀ i', i < i' → cbits[i']? ≠ some j) →
+    (Spec.Bits.writeAll outcome cbits q w).getLsbD j = outcome (q + i) := by
+  intro cbits
+  induction cbits with
+  | nil => intro q w i j _ h; simp at h
+  | cons c cs ih =>
+    intro q w i j hj hi hlast
+    rw [Spec.Bits.writeAll]
+    cases i with
+    | zero =>
+      simp at hi; subst hi
+      have hnot : c ∉ cs := by
+        intro hmem
+        obtain ⟨k, hk, hkc⟩ := List.getElem_of_mem hmem
+        exact hlast (k + 1) (by omega) (by simp [hk, hkc])
+      rw [writeAll_frame _ _ _ _ _ hnot, spec_write_getLsbD]; simp [hj]
+    | succ i =>
+      have := ih (q + 1) (Spec.Bits.write w c (outcome q)) i j hj (by simpa using hi)
+        (fun i' hi' => by have := hlast (i' + 1) (by omega); simpa using this)
+      rw [this]; congr 1; omega
+
+theorem writeAll_nodup (outcome : Nat → Bool) (cbits : List Nat) (q : Nat) (w : Word) (i j : Nat)
+    (hnd : cbits.Nodup) (hj : j < 64) (hi : cbits[i]? = some j) :
+    (Spec.Bits.writeAll outcome cbits q w).getLsbD j = outcome (q + i) := by
+  apply writeAll_last outcome cbits q w i j hj hi
+  intro i' hlt h'
+  have h1 : i < cbits.length := by
+    rcases Nat.lt_or_ge i cbits.length with h | h
+    · exact h
+    · rw [List.getElem?_eq_none h] at hi; cases hi
+  have h2 : i' < cbits.length := by
+    rcases Nat.lt_or_ge i' cbits.length with h | h
+    · exact h
+    · rw [List.getElem?_eq_none h] at h'; cases h'
+  rw [List.getElem?_eq_getElem h1] at hi
+  rw [List.getElem?_eq_getElem h2] at h'
+  have e : cbits[i] = cbits[i'] := by
+    injection hi with hi; injection h' with h'; rw [hi, h']
+  have := (List.getElem_inj hnd).mp e
+  omega
+
+/-- the stabilizer backend's `measure_all_into`, one shot: it *is* the sequence of single writes -/
+theorem measureAllStabLoop_eq_spec (n : Nat) (outcome : Nat → Bool) : ∀ (cbits : List Nat) (q : Nat) (w : Word),
+    q + cbits.length ≤ n → (∀ c ∈ cbits, c < 64) →
+    measureAllStabLoop n outcome cbits q w = .ok (Spec.Bits.writeAll outcome cbits q w) := by
+  intro cbits
+  induction cbits with
+  | nil => intro q w _ _; rfl
+  | cons c cs ih =>
+    intro q w hq hc
+    have h1 : ¬ q ≥ n := by simp at hq; omega
+    have hc0 : c < 64 := hc c (by simp)
+    rw [measureAllStabLoop, if_neg h1, writeBit_eq_spec hc0]
+    simp only
+    rw [ih (q + 1) _ (by simp at hq; omega) (fun x hx => hc x (by simp [hx]))]
+    rfl
+
+/-- a list longer than the number of qubits runs into `InvalidQBit(n)` -/
+theorem measureAllStabLoop_too_long (n : Nat) (outcome : Nat → Bool) : ∀ (cbits : List Nat) (q : Nat) (w : Word),
+    q ≤ n → n < q + cbits.length → (∀ c ∈ cbits, c < 64) →
+    measureAllStabLoop n outcome cbits q w = .err "InvalidQBit" [n] := by
+  intro cbits
+  induction cbits with
+  | nil => intro q w h1 h2 _; simp at h2; omega
+  | cons c cs ih =>
+    intro q w h1 h2 hc
+    rw [measureAllStabLoop]
+    by_cases hq : q ≥ n
+    · have : q = n := by omega
+      rw [if_pos hq, this]
+    · have hc0 : c < 64 := hc c (by simp)
+      rw [if_neg hq, writeBit_eq_spec hc0]
+      simp only
+      exact ih (q + 1) _ (by omega) (by simp at h2; omega) (fun x hx => hc x (by simp [hx]))
+
+theorem peekAllStabIdx_spec (outcome : Nat → Bool) : ∀ (cbits : List Nat) (q : Nat) (idx : Word),
+    (∀ c ∈ cbits, c < 64) →
+    ∃ r, peekAllStabIdx outcome cbits q idx = some r ∧
+      ∀ j, (r.getLsbD j = true ↔ (idx.getLsbD j = true ∨ ∃ i, cbits[i]? = some j ∧ outcome (q + i) = true)) := by
+  intro cbits
+  induction cbits with
+  | nil => intro q idx _; exact ⟨idx, rfl, by simp⟩
+  | cons c cs ih =>
+    intro q idx hc
+    have hc0 : c < 64 := hc c (by simp)
+    have hcs : ∀ x ∈ cs, x < 64 := fun x hx => hc x (by simp [hx])
+    by_cases ho : outcome q = true
+    · obtain ⟨r, hr, hb⟩ := ih (q + 1) (idx ||| (1#64 <<< c)) hcs
+      refine ⟨r, by simp [peekAllStabIdx, ho, shl_some hc0, hr], ?_⟩
+      intro j
+      rw [hb j, BitVec.getLsbD_or, Bool.or_eq_true, one_shl_getLsbD]
+      simp only [Bool.and_eq_true, decide_eq_true_eq]
+      constructor
+      · rintro ((h | ⟨_, h⟩) | ⟨i, h1, h2⟩)
+        · exact Or.inl h
+        · exact Or.inr ⟨0, by simp [h], by simpa using ho⟩
+        · exact Or.inr ⟨i + 1, by simpa using h1, by rw [← h2]; congr 1; omega⟩
+      · rintro (h | ⟨i, h1, h2⟩)
+        · exact Or.inl (Or.inl h)
+        · cases i with
+          | zero => simp at h1; exact Or.inl (Or.inr ⟨by omega, h1.symm⟩)
+          | succ i => exact Or.inr ⟨i, by simpa using h1, by rw [← h2]; congr 1; omega⟩
+    · obtain ⟨r, hr, hb⟩ := ih (q + 1) idx hcs
+      refine ⟨r, by simp [peekAllStabIdx, ho, hr], ?_⟩
+      intro j
+      rw [hb j]
+      constructor
+      · rintro (h | ⟨i, h1, h2⟩)
+        · exact Or.inl h
+        · exact Or.inr ⟨i + 1, by simpa using h1, by rw [← h2]; congr 1; omega⟩
+      · rintro (h | ⟨i, h1, h2⟩)
+        · exact Or.inl h
+        · cases i with
+          | zero => simp at h2; exact absurd h2 ho
+          | succ i => exact Or.inr ⟨i, by simpa using h1, by rw [← h2]; congr 1; omega⟩
+
+theorem peekAllStabWord_orSem (cbits : List Nat) (outcome : Nat → Bool) (w : Word) (hc : ∀ c ∈ cbits, c < 64) :
+    ∃ w', peekAllStabWord cbits outcome w = some w' ∧ OrSem w w' cbits outcome := by
+  obtain ⟨m, hm, hmb⟩ := orMask_spec cbits hc
+  obtain ⟨idx, hidx, hib⟩ := peekAllStabIdx_spec outcome cbits 0 0 hc
+  refine ⟨(w &&& ~~~m) ||| idx, by unfold peekAllStabWord; rw [hm]; simp only; rw [hidx], ?_⟩
+  intro j
+  have h0 : (0 : Word).getLsbD j = false := by simp
+  rw [BitVec.getLsbD_or, Bool.or_eq_true, BitVec.getLsbD_and, Bool.and_eq_true, BitVec.getLsbD_not,
+    Bool.and_eq_true, hib j, h0]
+  simp only [Bool.false_eq_true, false_or, Nat.zero_add]
+  constructor
+  · rintro (⟨hw, hj, hm'⟩ | h)
+    · left; refine ⟨hw, ?_⟩
+      intro hmem
+      have := (hmb j).mpr hmem
+      simp [this] at hm'
+    · exact Or.inr h
+  · rintro (⟨hw, hj⟩ | h)
+    · left
+      refine ⟨hw, by simpa using BitVec.lt_of_getLsbD hw, ?_⟩
+      cases hmj : m.getLsbD j with
+      | false => rfl
+      | true => exact absurd ((hmb j).mp hmj) hj
+    · exact Or.inr h
+
+/-- With distinct listed bits the OR semantics is the reference semantics. -/
+theorem orSem_nodup_eq_writeAll (w w' : Word) (cbits : List Nat) (val : Nat → Bool)
+    (hnd : cbits.Nodup) (h : OrSem w w' cbits val) :
+    w' = Spec.Bits.writeAll val cbits 0 w := by
+  apply word_ext
+  intro j hj
+  by_cases hmem : j ∈ cbits
+  · obtain ⟨i, hi, hij⟩ := List.getElem_of_mem hmem
+    have hi' : cbits[i]? = some j := by rw [List.getElem?_eq_getElem hi, hij]
+    rw [writeAll_nodup val cbits 0 w i j hnd hj hi', Nat.zero_add, Bool.eq_iff_iff, h j]
+    constructor
+    · rintro (⟨_, hn⟩ | ⟨i2, h1, h2⟩)
+      · exact absurd hmem hn
+      · have hi2 : i2 < cbits.length := by
+          rcases Nat.lt_or_ge i2 cbits.length with h | h
+          · exact h
+          · rw [List.getElem?_eq_none h] at h1; cases h1
+        rw [List.getElem?_eq_getElem hi2] at h1
+        injection h1 with h1
+        have : i2 = i := (List.getElem_inj hnd).mp (by rw [h1, hij])
+        rw [← this]; exact h2
+    · intro hv; exact Or.inr ⟨i, hi', hv⟩
+  · rw [writeAll_frame _ _ _ _ _ hmem, Bool.eq_iff_iff, h j]
+    constructor
+    · rintro (⟨hw, _⟩ | ⟨i, h1, _⟩)
+      · exact hw
+      · exact absurd (List.mem_of_getElem? h1) hmem
+    · intro hw; exact Or.inl ⟨hw, hmem⟩
+
+/-! ### control-word gather -/
+
+theorem shr_some {x : Word} {k : Nat} (h : k < 64) : shr x k = some (x >>> k) := by simp [shr, h]
+theorem shr_none {x : Word} {k : Nat} (h : 64 ≤ k) : shr x k = none := by
+  have : ¬ k < 64 := by omega
+  simp [shr, this]
+
+theorem gatherLoop_spec (sb : Word) : ∀ (control : List Nat) (idst : Nat) (db : Word),
+    (∀ c ∈ control, c < 64) → idst + control.length ≤ 64 →
+    ∃ r, gatherLoop sb control idst db = some r ∧
+      ∀ j, (r.getLsbD j = true ↔ (db.getLsbD j = true ∨
+        ∃ i c, control[i]? = some c ∧ j = idst + i ∧ sb.getLsbD c = true)) := by
+  intro control
+  induction control with
+  | nil => intro idst db _ _; exact ⟨db, rfl, by simp⟩
+  | cons c cs ih =>
+    intro idst db hc hlen
+    have hc0 : c < 64 := hc c (by simp)
+    have hd : idst < 64 := by simp at hlen; omega
+    obtain ⟨r, hr, hb⟩ := ih (idst + 1) (db ||| (((sb >>> c) &&& 1#64) <<< idst))
+      (fun x hx => hc x (by simp [hx])) (by simp at hlen; omega)
+    refine ⟨r, by simp [gatherLoop, shr_some hc0, shl_some hd, hr], ?_⟩
+    intro j
+    rw [hb j, BitVec.getLsbD_or, Bool.or_eq_true, and_one_shl_iff _ _ _ hd, BitVec.getLsbD_ushiftRight]
+    constructor
+    · rintro ((h | ⟨h1, h2⟩) | ⟨i, c', h1, h2, h3⟩)
+      · exact Or.inl h
+      · exact Or.inr ⟨0, c, by simp, by omega, by simpa using h2⟩
+      · exact Or.inr ⟨i + 1, c', by simpa using h1, by omega, h3⟩
+    · rintro (h | ⟨i, c', h1, h2, h3⟩)
+      · exact Or.inl (Or.inl h)
+      · cases i with
+        | zero =>
+          simp at h1; subst h1
+          exact Or.inl (Or.inr ⟨by omega, by simpa using h3⟩)
+        | succ i => exact Or.inr ⟨i, c', by simpa using h1, by omega, h3⟩
+
+/-- **control_word_bit**: bit `j` of the gathered word is bit `control[j]` of the register word;
+the first listed control bit is the least significant; bits beyond the list are 0. -/
+theorem control_word_bit (control : List Nat) (sb : Word)
+    (hc : ∀ c ∈ control, c < 64) (hlen : control.length ≤ 64) :
+    ∃ cw, controlWord control sb = some cw ∧
+      ∀ j, cw.getLsbD j = match control[j]? with | some c => sb.getLsbD c | none => false := by
+  obtain ⟨r, hr, hb⟩ := gatherLoop_spec sb control 0 0 hc (by omega)
+  refine ⟨r, hr, ?_⟩
+  intro j
+  have h0 : (0 : Word).getLsbD j = false := by simp
+  rw [Bool.eq_iff_iff, hb j, h0]
+  simp only [Bool.false_eq_true, false_or, Nat.zero_add]
+  constructor
+  · rintro ⟨i, c, h1, h2, h3⟩
+    subst h2; rw [h1]; exact h3
+  · intro h
+    cases hj : control[j]? with
+    | none => rw [hj] at h; cases h
+    | some c => rw [hj] at h; exact ⟨j, c, hj, rfl, h⟩
+
+theorem controlWord_eq_select (control : List Nat) (sb : Word)
+    (hc : ∀ c ∈ control, c < 64) (hlen : control.length ≤ 64) :
+    controlWord control sb = some (Spec.Bits.select control sb) := by
+  obtain ⟨cw, h1, h2⟩ := control_word_bit control sb hc hlen
+  rw [h1]; congr 1
+  apply word_ext
+  intro j hj
+  rw [h2 j]; unfold Spec.Bits.select; rw [ofBits_getLsbD]
+  simp only [hj, decide_true, Bool.true_and]
+  cases control[j]? <;> rfl
+
+/-- empty control list: the control word is 0 -/
+theorem controlWord_nil (sb : Word) : controlWord [] sb = some 0 := rfl
+
+/-- a control index ≥ 64 overflows `sb >> isrc` -/
+theorem gatherLoop_big_index (sb : Word) : ∀ (control : List Nat) (idst : Nat) (db : Word),
+    (∃ c ∈ control, 64 ≤ c) → gatherLoop sb control idst db = none := by
+  intro control
+  induction control with
+  | nil => intro _ _ h; simp at h
+  | cons c cs ih =>
+    intro idst db h
+    by_cases hc : c < 64
+    · have : ∃ x ∈ cs, 64 ≤ x := by
+        obtain ⟨x, hx, h64⟩ := h
+        simp at hx
+        rcases hx with rfl | hx
+        · omega
+        · exact ⟨x, hx, h64⟩
+      rw [gatherLoop, shr_some hc]
+      simp only
+      cases hs : shl ((sb >>> c) &&& 1) idst with
+      | none => rfl
+      | some x => simp only; exact ih _ _ this
+    · simp [gatherLoop, shr_none (by omega : 64 ≤ c)]
+
+/-- more than 64 control bits overflow `<< idst` -/
+theorem gatherLoop_too_long (sb : Word) : ∀ (control : List Nat) (idst : Nat) (db : Word),
+    64 < idst + control.length → idst ≤ 64 → gatherLoop sb control idst db = none := by
+  intro control
+  induction control with
+  | nil => intro idst db h h2; simp at h; omega
+  | cons c cs ih =>
+    intro idst db h h2
+    rw [gatherLoop]
+    cases hs : shr sb c with
+    | none => rfl
+    | some s =>
+      simp only
+      by_cases hd : idst < 64
+      · rw [shl_some hd]; simp only
+        exact ih _ _ (by simp at h; omega) (by omega)
+      · rw [shl_none (by omega)]
+
+theorem controlWord_none_iff (control : List Nat) (sb : Word) :
+    controlWord control sb = none ↔ ((∃ c ∈ control, 64 ≤ c) ∨ 64 < control.length) := by
+  constructor
+  · intro hnone
+    apply Classical.byContradiction
+    intro hne
+    have hall : ∀ c ∈ control, c < 64 := by
+      intro c hc
+      apply Classical.byContradiction
+      intro h; exact hne (Or.inl ⟨c, hc, by omega⟩)
+    have hlen : control.length ≤ 64 := by
+      apply Classical.byContradiction
+      intro h; exact hne (Or.inr (by omega))
+    obtain ⟨r, hr, _⟩ := control_word_bit control sb hall hlen
+    rw [hnone] at hr; cases hr
+  · rintro (h | h)
+    · exact gatherLoop_big_index sb control 0 0 h
+    · exact gatherLoop_too_long sb control 0 0 (by omega) (by omega)
+
 end Q1t.Proofs.Bits
